@@ -1580,12 +1580,7 @@ func propC07Ranges(c *Ctx) {
 func propC07TraceReplyBlock(c *Ctx) {
 	w := c.W
 	fn := w.Fn("jrpc2", "(*Client).traces")
-	var pStart *ssa.Parameter
-	for _, p := range fn.Params {
-		if p.Name() == "start" {
-			pStart = p
-		}
-	}
+	pStart, _ := rangeParams(fn)
 	reg := NewRegion(fn)
 	aff := &affEnv{reg: reg}
 	isAsked := func(v ssa.Value) bool {
